@@ -85,6 +85,12 @@ def cases(tier, seed):
                       ['replace z z']):
                 for m in sorted({1, 2, 3, 4, 7, max(1, n // 2), max(1, n - 1)}):
                     yield {'text': t, 'akind': ak, 'wrap': w, 'mem': m}
+    # ---- texts longer than every internal chunk size (io.DEFAULT_BUFFER_SIZE 8192, 2**16): every accessor gives the
+    # whole text
+    for t in ('ab\n' * 25000, 'x' * 70000 + '\nlast a\n', ('line %d é\n' * 9000) % tuple(range(9000))):
+        for ak in ('file', 'prog', 'stdout'):
+            for w, m in (([], 8192), (['filter constant true'], 8192), ([], 100), (['identity'], 200000)):
+                yield {'text': t, 'akind': ak, 'wrap': w, 'mem': m}
     # ---- borrowed workloads: the cases of C05 (matchers/transformers over many source kinds) and C10 (programs, stdin
     # built from several parts, program output as text source) are executed here with M4 switched on and a small
     # memory buffer; only M4 decides (the borrowed checks' own oracles are ignored in this check)
@@ -150,6 +156,9 @@ def build(case, d):
              'cat.sh': ('exe', '#!/bin/sh\ncat\n')}
     pr = probe.PROBE
     ak = case['akind']
+    # the program that prints the text: the probe told by a hex argument; for texts too long for one argument, cat
+    EMIT = ('% ' + pr + ' - ' + (('out=' + hexs) if hexs else 'rc=0')) if len(hexs) < 60000 else \
+        '% cat -existing-file -rel-home t.txt'
     if ak == 'file':
         subj = 'contents t.txt : '
         nl = ''
@@ -157,7 +166,7 @@ def build(case, d):
         subj = 'stdout '
         nl = ''
     else:
-        subj = 'stdout -from % ' + pr + ' - ' + (('out=' + hexs) if hexs else 'rc=0') + '\n    '
+        subj = 'stdout -from ' + EMIT + '\n    '
         nl = ''
     wrap = ''
     if case['wrap']:
@@ -194,7 +203,7 @@ def build(case, d):
     variants('equals-file', True, 'equals -contents-of -rel-act e.txt')
     add('equals-kinds', True, '( equals -contents-of -rel-act e.txt )')
     add('equals-kinds', True, '( equals -contents-of -rel-act e.txt -transformed-by identity )')
-    add('equals-kinds', True, '( equals -stdout-from % ' + pr + ' - ' + (('out=' + hexs) if hexs else 'rc=0') + '\n )')
+    add('equals-kinds', True, '( equals -stdout-from ' + EMIT + '\n )')
     add('equals-kinds', True, '( equals -contents-of -rel-act e.txt -transformed-by run -rel-home cat.sh\n )')
     hd = _heredoc(t)
     if hd is not None:
@@ -205,7 +214,8 @@ def build(case, d):
     lhex = longer.encode('utf-8').hex()
     add('equals-neg', False, '( equals -contents-of -rel-act longer.txt )')
     add('equals-neg', False, '( equals -contents-of -rel-act longer.txt -transformed-by identity )')
-    add('equals-neg', False, '( equals -stdout-from % ' + pr + ' - out=' + lhex + '\n )')
+    if len(lhex) < 60000:
+        add('equals-neg', False, '( equals -stdout-from % ' + pr + ' - out=' + lhex + '\n )')
     add('equals-neg', False, '( ( equals -contents-of -rel-act longer.txt ) || ( equals -contents-of -rel-act longer.txt ) )')
     hd2 = _heredoc(longer)
     if hd2 is not None:
@@ -216,7 +226,8 @@ def build(case, d):
         files['shorter.txt'] = shorter.encode('utf-8')
         add('equals-neg2', False, '( equals -contents-of -rel-act shorter.txt )')
         add('equals-neg2', False, '( equals -contents-of -rel-act shorter.txt -transformed-by identity )')
-        add('equals-neg2', False, '( equals -stdout-from % ' + pr + ' - out=' + shorter.encode('utf-8').hex() + '\n )')
+        if len(shorter) < 30000:
+            add('equals-neg2', False, '( equals -stdout-from % ' + pr + ' - out=' + shorter.encode('utf-8').hex() + '\n )')
         hd3 = _heredoc(shorter)
         if hd3 is not None:
             add('equals-neg2', False, '( equals ' + hd3 + '\n )')
@@ -225,7 +236,7 @@ def build(case, d):
     # the two sides are the same text, so every member must hold.  Not for texts with CR (S6: the kinds of source
     # legitimately disagree there).
     if '\r' not in t:
-        pgm = '% ' + pr + ' - ' + (('out=' + hexs) if hexs else 'rc=0')
+        pgm = EMIT
         for name, T in (('strip', 'strip'), ('strip-nl', 'strip -trailing-new-lines'),
                         ('ln-multi', 'filter -line-nums 1 -2:'), ('ln-neg', 'filter -line-nums -1 1'),
                         ('ln-rev', 'filter -line-nums 2: 1')):
@@ -257,6 +268,27 @@ def build(case, d):
         hd4 = _heredoc(same)
         if hd4 is not None:
             fam.append(('equals-neg-samesize', False, hsubj + '! equals ' + hd4))
+    # --- family: a text made of two parts - the stdin a program defines for itself, followed by the text it is given
+    # to transform - where the second part comes from a file, from a program (written by a sub process straight to the
+    # file descriptor) and from the subject itself: the parts keep their order whatever wrote them
+    # (not for texts with CR: S6, the kinds of source legitimately disagree there)
+    if '\r' not in t:
+        files['pre.txt'] = b'pre line\n'
+        files['prepended.txt'] = b'pre line\n' + tb
+        TR = '-transformed-by ( run -rel-home cat.sh\n -stdin -contents-of -rel-home pre.txt\n ) '
+        EXP = 'equals -contents-of -rel-home prepended.txt'
+        add('concat-stdin', True, '( ' + TR + EXP + ' )')
+        add('concat-stdin', True, '( ' + TR + '( ' + EXP + ' && ' + EXP + ' ) )')
+        fam.append(('concat-stdin', True, 'contents -rel-home t.txt : ' + TR + EXP))
+        fam.append(('concat-stdin', True, 'stdout -from ' + EMIT + '\n ' + TR + EXP))
+        fam.append(('concat-stdin', True, 'stdout -from ' + EMIT + '\n -transformed-by identity\n ' + TR + EXP))
+        # ... and with the two-part text as the EXPECTED operand (a text source: output of a program + transformation)
+        fam.append(('concat-stdin', True, 'contents -rel-home prepended.txt : equals -stdout-from ' + EMIT + '\n ' +
+                    TR.rstrip()))
+        fam.append(('concat-stdin', True, 'contents -rel-home prepended.txt : equals -stdout-from ' + EMIT +
+                    '\n -transformed-by ( run -rel-home cat.sh\n -stdin <<EOF\npre line\nEOF\n )'))
+        fam.append(('concat-stdin', True, 'contents -rel-home prepended.txt : ( equals -stdout-from ' + EMIT + '\n ' +
+                    TR.rstrip() + ' && ! is-empty )'))
     # --- family: whole-string consumer
     has_a = 'a' in t
     variants('matches', has_a, 'matches a', simple=False)
@@ -274,7 +306,7 @@ def build(case, d):
     for perm in itertools.permutations([p_lines, p_ext, p_str]):
         add('perm-ext', True, '( ' + ' && '.join(perm) + ' )')
     setup = ['copy t.txt', 'copy e.txt', 'copy longer.txt'] + (['copy shorter.txt'] if 'shorter.txt' in files else [])
-    act = pr + ' - ' + (('out=' + hexs) if hexs else 'rc=0')
+    act = EMIT
     return setup, act, fam, files
 
 
